@@ -38,6 +38,10 @@ func (m *Monitor) resolve(p int, r Ref) uint64 {
 				return g.ID
 			}
 		}
+	case "pub":
+		if v, ok := m.pubByReq[callKey{r.P, r.Req}]; ok {
+			return v
+		}
 	case "inv":
 		// look in every realm: cross-realm attack ops name foreign calls
 		for _, rl := range m.Realms {
@@ -652,4 +656,98 @@ func (m *Monitor) NoCallState() bool {
 		}
 	}
 	return true
+}
+
+// ObserveRemoveRealm checks the removal of a realm: its sessions are told
+// GOODBYE wamp.close.system_shutdown or lose their transport, nobody else
+// notices anything.
+func (m *Monitor) ObserveRemoveRealm(name string, obs map[int][]sim.Obs) {
+	op := Op{Kind: OpRaw, URI: "RemoveRealm " + name}
+	s := m.newStep(op, obs)
+	defer s.finish()
+	rl := m.Realms[name]
+	if rl == nil {
+		return
+	}
+	for _, ss := range m.aliveIn(name) {
+		p := ss.Idx
+		m.R.Hit("SD3")
+		g := s.find(p, func(o *ob) bool {
+			gb, ok := isMsg[*wamp.Goodbye](o)
+			return ok && string(gb.Reason) == "wamp.close.system_shutdown"
+		})
+		cl := s.find(p, func(o *ob) bool { return o.Closed })
+		if g == nil && cl == nil {
+			m.R.Fail("SD3", "session not told about realm removal", "RemoveRealm(%s): P%d saw neither GOODBYE system_shutdown nor its transport closing: %s", name, p, s.describe(p))
+		}
+		if cl == nil {
+			m.R.Fail("SD3", "transport left open after realm removal", "RemoveRealm(%s): transport of P%d was not closed", name, p)
+		}
+		// other farewell messages to the dying sessions (errors for their pending calls...) are not judged
+		for _, o := range s.obs[p] {
+			o.used = true
+		}
+		ss.Alive = false
+	}
+	delete(m.Realms, name)
+}
+
+// ObserveDenied checks a message the Authorizer refused: no effect anywhere,
+// and exactly one ERROR of the request's type and id for request messages
+// (none for an unacknowledged PUBLISH); for other message kinds at most one
+// ERROR to the sender.
+func (m *Monitor) ObserveDenied(op Op, failed bool, obs map[int][]sim.Obs) {
+	s := m.newStep(op, obs)
+	defer s.finish()
+	uri := ErrNotAuthorized
+	if failed {
+		uri = ErrAuthzFailed
+	}
+	var typ wamp.MessageType
+	request := true
+	req := op.Req
+	switch op.Kind {
+	case OpPublish:
+		typ = wamp.PUBLISH
+		if ack, _ := optBool(op.Opts, "acknowledge"); !ack {
+			m.R.Hit("AZ2")
+			return // silence; anything observed is flagged by finish()
+		}
+	case OpSubscribe:
+		typ = wamp.SUBSCRIBE
+	case OpUnsubscribe:
+		typ = wamp.UNSUBSCRIBE
+	case OpRegister:
+		typ = wamp.REGISTER
+	case OpUnregister:
+		typ = wamp.UNREGISTER
+	case OpCall, OpMetaCall:
+		typ = wamp.CALL
+	case OpCancel:
+		typ = wamp.CANCEL
+	case OpYield:
+		typ, request, req = wamp.YIELD, false, m.cur.target
+	case OpInvError:
+		typ, request = wamp.ERROR, false
+	case OpLeave:
+		typ, request = wamp.GOODBYE, false
+	}
+	if request {
+		s.need(op.P, "AZ1", "denied "+typ.String()+" not answered", fmt.Sprintf("ERROR(%s,%d,%s)", typ, req, uri),
+			func(o *ob) bool { return errIs(o, typ, req, uri) })
+		m.R.Hit("AZ3")
+		return
+	}
+	m.R.Hit("AZ3")
+	s.find(op.P, func(o *ob) bool {
+		e, ok := isMsg[*wamp.Error](o)
+		return ok && e.Type == typ && string(e.Error) == uri
+	})
+}
+
+// SetAttr records a session detail changed by the Authorizer.
+func (m *Monitor) SetAttr(p int, k, v string) {
+	if s := m.Sess[p]; s != nil {
+		s.Attrs[k] = v
+	}
 }
